@@ -64,6 +64,65 @@ Record Completes (pq : prequest) (pes : pentities) (q : request) (es : entities)
                      (forall t, pe_tags pe = Some t -> etags d = t)
 }.
 
+(* induction principle with the nested lists *)
+Section ResInd.
+  Variable P : residual -> Prop.
+  Hypothesis HVal : forall v, P (RVal v).
+  Hypothesis HErr : P RErr.
+  Hypothesis HVar : forall v, P (RVar v).
+  Hypothesis HIf : forall c a b, P c -> P a -> P b -> P (RIf c a b).
+  Hypothesis HAnd : forall a b, P a -> P b -> P (RAnd a b).
+  Hypothesis HOr : forall a b, P a -> P b -> P (ROr a b).
+  Hypothesis HUn : forall op a, P a -> P (RUn op a).
+  Hypothesis HBin : forall op a b, P a -> P b -> P (RBin op a b).
+  Hypothesis HExt : forall fn args, Forall P args -> P (RExt fn args).
+  Hypothesis HGet : forall e k, P e -> P (RGetAttr e k).
+  Hypothesis HHas : forall e k, P e -> P (RHasAttr e k).
+  Hypothesis HLike : forall e p, P e -> P (RLike e p).
+  Hypothesis HIs : forall e t, P e -> P (RIs e t).
+  Hypothesis HSet : forall items, Forall P items -> P (RSet items).
+  Hypothesis HRec : forall items, Forall (fun kv => P (snd kv)) items -> P (RRecord items).
+
+  Fixpoint residual_ind2 (r : residual) : P r :=
+    match r with
+    | RVal v => HVal v
+    | RErr => HErr
+    | RVar v => HVar v
+    | RIf c a b => HIf c a b (residual_ind2 c) (residual_ind2 a) (residual_ind2 b)
+    | RAnd a b => HAnd a b (residual_ind2 a) (residual_ind2 b)
+    | ROr a b => HOr a b (residual_ind2 a) (residual_ind2 b)
+    | RUn op a => HUn op a (residual_ind2 a)
+    | RBin op a b => HBin op a b (residual_ind2 a) (residual_ind2 b)
+    | RExt fn args =>
+        HExt fn args ((fix go (l : list residual) : Forall P l :=
+                         match l with
+                         | [] => Forall_nil P
+                         | x :: l' => Forall_cons x (residual_ind2 x) (go l')
+                         end) args)
+    | RGetAttr e k => HGet e k (residual_ind2 e)
+    | RHasAttr e k => HHas e k (residual_ind2 e)
+    | RLike e p => HLike e p (residual_ind2 e)
+    | RIs e t => HIs e t (residual_ind2 e)
+    | RSet items =>
+        HSet items ((fix go (l : list residual) : Forall P l :=
+                       match l with
+                       | [] => Forall_nil P
+                       | x :: l' => Forall_cons x (residual_ind2 x) (go l')
+                       end) items)
+    | RRecord items =>
+        HRec items ((fix go (l : list (str * residual)) : Forall (fun kv => P (snd kv)) l :=
+                       match l with
+                       | [] => Forall_nil _
+                       | kv :: l' => Forall_cons kv (residual_ind2 (snd kv)) (go l')
+                       end) items)
+    end.
+End ResInd.
+
+Lemma val_of_val r v : val_of r = Some v -> r = RVal v.
+Proof. destruct r; cbn; congruence. Qed.
+Lemma is_err_err r : is_err r = true -> r = RErr.
+Proof. destruct r; cbn; congruence. Qed.
+
 Section Sound.
 Variable cx : name -> list value -> res value.
 Variable pq : prequest.
@@ -390,6 +449,152 @@ Proof.
     cbn [reval]. rewrite He. cbn. exact Logic.I.
   - apply shape_err in Sb. rewrite Sb in Hb. apply sim_err_l in Hb as [e He].
     cbn [reval]. rewrite He. destruct (R a); cbn; exact Logic.I.
+Qed.
+
+(* ---- lists of operands: extension calls, set and record literals ---- *)
+Fixpoint rlist (l : list residual) : res (list value) :=
+  match l with
+  | [] => Ok []
+  | x :: l' => do v <- R x; do vs <- rlist l'; Ok (v :: vs)
+  end.
+Fixpoint rrec (l : list (str * residual)) : res (list (str * value)) :=
+  match l with
+  | [] => Ok []
+  | (k, x) :: l' => do v <- R x; do kvs <- rrec l'; Ok ((k, v) :: kvs)
+  end.
+Lemma R_ext fn args : R (RExt fn args) = (do vs <- rlist args; cx fn vs).
+Proof. reflexivity. Qed.
+Lemma R_set items : R (RSet items) = (do vs <- rlist items; Ok (VSet vs)).
+Proof. reflexivity. Qed.
+Lemma R_record items : R (RRecord items) = (do kvs <- rrec items; Ok (VRecord kvs)).
+Proof. reflexivity. Qed.
+
+Lemma rlist_vals l : Forall (fun x => sim (R (I x)) (R x)) l ->
+  forall vs, vals_of (map I l) = Some vs -> rlist l = Ok vs.
+Proof.
+  induction 1 as [|x l Hx _ IH]; intros vs Hv; cbn in Hv.
+  - inversion Hv; reflexivity.
+  - destruct (val_of (I x)) as [v|] eqn:V; [|discriminate].
+    destruct (vals_of (map I l)) as [vs'|] eqn:V'; [|discriminate]. inversion Hv; subst.
+    apply val_of_val in V. rewrite V in Hx. apply sim_ok_l in Hx.
+    cbn [rlist]. rewrite Hx, (IH vs' eq_refl). reflexivity.
+Qed.
+Lemma rlist_err l : Forall (fun x => sim (R (I x)) (R x)) l ->
+  existsb is_err (map I l) = true -> exists e, rlist l = Err e.
+Proof.
+  induction 1 as [|x l Hx _ IH]; cbn [map existsb]; intros He; [discriminate|].
+  cbn [rlist]. destruct (is_err (I x)) eqn:E.
+  - apply is_err_err in E. rewrite E in Hx. apply sim_err_l in Hx as [e Hx]. rewrite Hx. cbn. eauto.
+  - cbn in He. destruct (IH He) as [e IHe]. rewrite IHe. destruct (R x); cbn; eauto.
+Qed.
+Lemma rlist_cong l : Forall (fun x => sim (R (I x)) (R x)) l -> sim (rlist (map I l)) (rlist l).
+Proof.
+  induction 1 as [|x l Hx _ IH]; cbn [map rlist]; [reflexivity|].
+  apply sim_bind; [exact Hx|]. intros v. apply sim_bind; [exact IH|]. intros; apply sim_refl.
+Qed.
+
+Notation IK := (fun kv : str * residual => (fst kv, I (snd kv))).
+Lemma rrec_vals l : Forall (fun kv => sim (R (I (snd kv))) (R (snd kv))) l ->
+  forall kvs, kvals_of (map IK l) = Some kvs -> rrec l = Ok kvs.
+Proof.
+  induction 1 as [|[k x] l Hx _ IH]; intros kvs Hv; cbn in Hv.
+  - inversion Hv; reflexivity.
+  - cbn in Hx. destruct (val_of (I x)) as [v|] eqn:V; [|discriminate].
+    destruct (kvals_of (map IK l)) as [vs'|] eqn:V'; [|discriminate]. inversion Hv; subst.
+    apply val_of_val in V. rewrite V in Hx. apply sim_ok_l in Hx.
+    cbn [rrec]. rewrite Hx, (IH vs' eq_refl). reflexivity.
+Qed.
+Lemma rrec_err l : Forall (fun kv => sim (R (I (snd kv))) (R (snd kv))) l ->
+  existsb (fun kv => is_err (snd kv)) (map IK l) = true -> exists e, rrec l = Err e.
+Proof.
+  induction 1 as [|[k x] l Hx _ IH]; cbn [map existsb]; intros He; [discriminate|].
+  cbn [rrec]. cbn in Hx. cbn [snd] in He. destruct (is_err (I x)) eqn:E.
+  - apply is_err_err in E. rewrite E in Hx. apply sim_err_l in Hx as [e Hx]. rewrite Hx. cbn. eauto.
+  - cbn in He. destruct (IH He) as [e IHe]. rewrite IHe. destruct (R x); cbn; eauto.
+Qed.
+Lemma rrec_cong l : Forall (fun kv => sim (R (I (snd kv))) (R (snd kv))) l -> sim (rrec (map IK l)) (rrec l).
+Proof.
+  induction 1 as [|[k x] l Hx _ IH]; cbn [map rrec fst snd]; [reflexivity|].
+  apply sim_bind; [exact Hx|]. intros v. apply sim_bind; [exact IH|]. intros; apply sim_refl.
+Qed.
+
+Lemma sound_ext fn args : Forall (fun x => sim (R (I x)) (R x)) args ->
+  sim (R (I (RExt fn args))) (R (RExt fn args)).
+Proof.
+  intros H. cbn [interp]. destruct (vals_of (map I args)) as [vs|] eqn:V.
+  - rewrite R_ext, (rlist_vals _ H vs V). cbn [bind]. apply of_res_sim.
+  - destruct (existsb is_err (map I args)) eqn:E.
+    + destruct (rlist_err _ H E) as [e He]. rewrite R_ext, He. cbn. exact Logic.I.
+    + rewrite !R_ext. apply sim_bind; [apply rlist_cong; exact H|]. intros; apply sim_refl.
+Qed.
+Lemma sound_set items : Forall (fun x => sim (R (I x)) (R x)) items ->
+  sim (R (I (RSet items))) (R (RSet items)).
+Proof.
+  intros H. cbn [interp]. destruct (vals_of (map I items)) as [vs|] eqn:V.
+  - rewrite R_set, (rlist_vals _ H vs V). cbn. reflexivity.
+  - destruct (existsb is_err (map I items)) eqn:E.
+    + destruct (rlist_err _ H E) as [e He]. rewrite R_set, He. cbn. exact Logic.I.
+    + rewrite !R_set. apply sim_bind; [apply rlist_cong; exact H|]. intros; apply sim_refl.
+Qed.
+Lemma sound_record items : Forall (fun kv => sim (R (I (snd kv))) (R (snd kv))) items ->
+  sim (R (I (RRecord items))) (R (RRecord items)).
+Proof.
+  intros H. cbn [interp]. destruct (kvals_of (map IK items)) as [kvs|] eqn:V.
+  - rewrite R_record, (rrec_vals _ H kvs V). cbn. reflexivity.
+  - destruct (existsb (fun kv => is_err (snd kv)) (map IK items)) eqn:E.
+    + destruct (rrec_err _ H E) as [e He]. rewrite R_record, He. cbn. exact Logic.I.
+    + rewrite !R_record. apply sim_bind; [apply rrec_cong; exact H|]. intros; apply sim_refl.
+Qed.
+
+(* ---- the side condition (what validation gives on a conformant completion): the operands of && and || are
+        booleans when they evaluate, and a left operand whose interpreted form cannot error does not error ---- *)
+Fixpoint Side (r : residual) : Prop :=
+  match r with
+  | RAnd a b | ROr a b =>
+      Side a /\ Side b /\ boolish a /\ boolish b /\ (can_error (I a) = false -> forall e, R a <> Err e)
+  | RIf c a b => Side c /\ Side a /\ Side b
+  | RUn _ a | RGetAttr a _ | RHasAttr a _ | RLike a _ | RIs a _ => Side a
+  | RBin _ a b => Side a /\ Side b
+  | RExt _ l | RSet l => (fix go (l : list residual) : Prop := match l with [] => True | x :: l' => Side x /\ go l' end) l
+  | RRecord l => (fix go (l : list (str * residual)) : Prop :=
+                    match l with [] => True | kv :: l' => Side (snd kv) /\ go l' end) l
+  | _ => True
+  end.
+
+Lemma side_forall l : Forall (fun x => Side x -> sim (R (I x)) (R x)) l -> Side (RSet l) ->
+  Forall (fun x => sim (R (I x)) (R x)) l.
+Proof.
+  induction 1 as [|x l Hx _ IH]; intros HS; constructor.
+  - apply Hx. exact (proj1 HS).
+  - apply IH. exact (proj2 HS).
+Qed.
+Lemma side_forall_rec l : Forall (fun kv => Side (snd kv) -> sim (R (I (snd kv))) (R (snd kv))) l -> Side (RRecord l) ->
+  Forall (fun kv => sim (R (I (snd kv))) (R (snd kv))) l.
+Proof.
+  induction 1 as [|x l Hx _ IH]; intros HS; constructor.
+  - apply Hx. exact (proj1 HS).
+  - apply IH. exact (proj2 HS).
+Qed.
+
+(* ---- soundness of interpret, all arms ---- *)
+Theorem interp_sound r : Side r -> sim (R (I r)) (R r).
+Proof.
+  induction r using residual_ind2; intros HS.
+  - apply sound_val.
+  - apply sound_err.
+  - apply sound_var.
+  - destruct HS as [H1 [H2 H3]]. apply sound_if; auto.
+  - destruct HS as [H1 [H2 [H3 [H4 H5]]]]. apply sound_and; auto.
+  - destruct HS as [H1 [H2 [H3 [H4 H5]]]]. apply sound_or; auto.
+  - apply sound_un; auto.
+  - destruct HS as [H1 H2]. apply sound_bin; auto.
+  - apply sound_ext. exact (side_forall _ H HS).
+  - apply sound_getattr; auto.
+  - apply sound_hasattr; auto.
+  - apply sound_like; auto.
+  - apply sound_is; auto.
+  - apply sound_set. exact (side_forall _ H HS).
+  - apply sound_record. exact (side_forall_rec _ H HS).
 Qed.
 
 End Sound.
